@@ -103,6 +103,8 @@ def run_stdout(ctx, section, g, recs, order, bgzf_in, d):
 
 
 def run(ctx):
+    ctx.bound("text variants: 3 plain inputs (UTF-8 read names, UTF-8 Z value, CRLF line ends) of 12 records")
+    text_variants(ctx)
     rng = ctx.rng
     # ---- 1. exhaustive over a fixed graph: every walk of <= 3 steps x every (start,end) ------------------------------------------
     g = sortlib.fixed_graph()
@@ -198,7 +200,55 @@ def run(ctx):
             "(graph, record sequence, configuration)")
 
 
+def text_variants(ctx):
+    """plain-text inputs whose character count differs from their byte count (a multi-byte UTF-8 character in a read name / Z value)
+    or whose lines end in CRLF: offsets must still address the records (added after seeded change C09/1)"""
+    import collections
+    from gaftools.cli.sort import run_sort as real_run_sort
+    g = sortlib.fixed_graph()
+    walks = [w for w in g.walks(2)][:12]
+    base = []
+    for i, w in enumerate(walks):
+        pl = sum(g.by_id[n].ln for n, _ in w)
+        f = sortlib.gaf_record(g, w, 0, pl, name="r%d" % i, tags=("NM:i:%d" % i,))
+        base.append((w, 0, pl, f))
+    variants = {
+        "utf8-read-name": ([(w, s, e, ["r\u00e9ad\u4e2d%d" % i] + f[1:]) for i, (w, s, e, f) in enumerate(base)], "\n"),
+        "utf8-z-value": ([(w, s, e, f + ["co:Z:caf\u00e9 \u2713"]) for (w, s, e, f) in base], "\n"),
+        "crlf": (base, "\r\n"),
+    }
+    for name, (recs, eol) in variants.items():
+        d = ctx.dir("c09t")
+        gfa = os.path.join(d, "g.gfa")
+        g.write(gfa)
+        order = list(range(len(recs)))
+        ctx.rng.shuffle(order)
+        inp = ["\t".join(recs[i][3]) for i in order]
+        with open(os.path.join(d, "in.gaf"), "wb") as fh:
+            fh.write("".join(l + eol for l in inp).encode("utf-8"))
+        ctx.case("text-variants", name, sample={"variant": name, "first_record": inp[0]})
+        case = {"mode": "text-variant", "variant": name, "gfa": g.lines(), "lines": inp, "eol": eol}
+        try:
+            real_run_sort(gfa, os.path.join(d, "in.gaf"), outgaf=os.path.join(d, "out.gaf"), outind=None, bgzip=False)
+        except BaseException as e:  # noqa
+            ctx.fail("text-variants", "gaftools sort on a %s input raised %s: %s" % (name, type(e).__name__, e), case)
+            continue
+        got = [l.rstrip("\r") for l in open(os.path.join(d, "out.gaf"), encoding="utf-8").read().split("\n") if l]
+        want = collections.Counter()
+        for i in order:
+            w, s, e, f = recs[i]
+            o = sortlib.oracle(g, w, s, e)
+            want["\t".join(f) + "\tbo:i:%d\tsn:Z:%s\tiv:i:%d" % (o["bo"], o["sn"], o["inv"])] += 1
+        if collections.Counter(got) != want:
+            ctx.fail("text-variants", "%s input: output is not the multiset of input records with bo/sn/iv appended (got %d lines, first %r)" % (name, len(got), got[:1]), case)
+
+
 def replay(ctx, rec):
+    if rec["case"].get("mode") == "text-variant":
+        sub = type(ctx)(ctx.pid, "quick", 0, ctx.dir("rp"))
+        text_variants(sub)
+        bad = [f for f in sub.failures if rec["case"]["variant"] in f["what"]]
+        return (not bad), (bad[0]["what"] if bad else "holds")
     c = rec["case"]
     g, recs = sortlib.case_from_dict(c)
     sub = type(ctx)(ctx.pid, "quick", 0, ctx.dir("sub"))
